@@ -71,6 +71,11 @@ def go_env(extra=None):
         "GOFLAGS": "-mod=mod", "GOPROXY": "off", "GOSUMDB": "off", "GOTOOLCHAIN": "local",
         "GODEBUG": "goindex=0", "CGO_ENABLED": env.get("CGO_ENABLED", "1"),
     })
+    if _scratch:
+        # go build work directories and t.TempDir() of the harness tests live (and die) with the scratch directory
+        tmp = os.path.join(_scratch[-1], "tmp")
+        os.makedirs(tmp, exist_ok=True)
+        env["TMPDIR"] = tmp
     if extra:
         env.update({k: str(v) for k, v in extra.items()})
     return env
@@ -160,7 +165,9 @@ def tlc(work, module, cfg=None, workers=None, args=None, timeout=600, deque=Fals
     if not os.path.isdir(sdir):
         shutil.copytree(SPEC, sdir)
     meta = os.path.join(work, "meta_%s_%d" % (module, int(time.time() * 1000) % 10 ** 9))
-    cmd = ["java", "-Xss64m", "-Xmx" + heap, "-XX:+UseParallelGC"]
+    jtmp = os.path.join(work, "jtmp")
+    os.makedirs(jtmp, exist_ok=True)
+    cmd = ["java", "-Xss64m", "-Xmx" + heap, "-XX:+UseParallelGC", "-Djava.io.tmpdir=" + jtmp]
     if deque:
         cmd.append("-Dtlc2.tool.queue.IStateQueue=StateDeque")
     for k, v in (defines or {}).items():
